@@ -664,7 +664,9 @@ func (s *Server) leadershipAcquired(raft *raftNode) error {
 	}
 
 	// Subscribe to leader NATS subject for propagated requests.
-	sub, err := s.nc.Subscribe(s.getPropagateInbox(), s.handlePropagatedRequest)
+	// Subscribe as a queue group so that a request is handled by one server
+	// only if the previous leader has not unsubscribed yet.
+	sub, err := s.nc.QueueSubscribe(s.getPropagateInbox(), "metadata-leader", s.handlePropagatedRequest)
 	if err != nil {
 		return err
 	}
